@@ -113,7 +113,7 @@ def check_c05(tier, replay=None):
     states, transitions, docs = metainfo_docs(pid, tier)
     cases = [{'op': 'metainfo', 'input': b(d['bytes']).hex()} for _, _, d in docs]
     # implementation -> spec: mutated real-shaped torrents; TLC (BencodeTrace) recomputes the info span byte by byte
-    n = 120 if tier == 'quick' else 2500
+    n = 120 if tier == 'quick' else 500
     tdocs = sample_torrents(rng, n)
     obs = run_mbt(cases + [{'op': 'metainfo', 'input': t.hex()} for t in tdocs])
     agree = accepted = 0
@@ -182,7 +182,7 @@ def sample_torrents(rng, n):
         if rng.random() < 0.25 and data:
             i = rng.randrange(len(data))
             data[i] = rng.choice(b'ilde:0-19')
-        docs.append(bytes(data[:400]))
+        docs.append(bytes(data[:300]))
     return docs
 
 
